@@ -1,2 +1,55 @@
 import CnlDriver.C01
-/-! table in CnlDriver.C01 -/
+import CnlModel.Wrap
+/-! `C04` table proper is in CnlDriver.C01.  `C04w`: `wrap`/`unwrap` and `from_rep`/`to_rep` are exact inverses.
+
+    C04w wrap <T> <V> <v> => <wrap<T>(v)>|<unwrap(wrap<T>(v))>|<wrap<T>(unwrap(wrap<T>(v)))>
+    C04w rep  <T> <V> <v> => <from_rep<T>(v)>|<to_rep(from_rep<T>(v))>|<from_rep<T>(to_rep(from_rep<T>(v)))>
+
+Oracle (the property's last sentence): the second field is the argument itself (type and value) whenever the first
+field holds the argument's value; the third field equals the first. -/
+namespace Cnl.Drv
+open Cnl
+
+def c04wPure : Ty → Bool
+  | .int _ => true
+  | .sc r _ _ => c04wPure r
+  | .ov r _ => c04wPure r
+  | .rd r _ => c04wPure r
+  | _ => false
+
+def c04wOracle (strictTy : Bool) (V : IntTy) (v : Int) (res : String) : Option Bool :=
+  match res.splitOn "|" with
+  | [a, b, c] =>
+    -- value carried by the first field
+    match (a.splitOn ":").getLast?, b.splitOn ":" with
+    | some va, [tb, vb] =>
+      if va.toInt? == some v then
+        -- the inverse gives the argument back: its value, and its type too unless the archetype fixes its own
+        -- storage type (elastic_integer)
+        some (vb.toInt? == some v && (tb == V.toString || !strictTy) && c == a)
+      else some (c == a)   -- the archetype's own storage could not hold the argument: only the re-wrap is constrained
+    | _, _ => some false
+  | _ => some false
+
+def checkC04w (toks : List String) (res : String) : Option Verdict :=
+  match toks with
+  | ["wrap", t, vt, v] => do
+    let T ← parseTy t; let V ← parseIntTy vt; let v ← v.toInt?
+    let m : Option String := do
+      let w ← Wrap.wrap T (V, v)
+      let u ← Wrap.unwrap w
+      let w2 ← Wrap.wrap T u
+      pure (showNum w ++ "|" ++ showTV u ++ "|" ++ showNum w2)
+    some { model := m.getD "ILL(not modelled)", spec := c04wOracle (c04wPure T) V v res,
+           branch := "wrap/" ++ (if Wrap.leafTy T == some V then "same-rep" else "other-rep") }
+  | ["rep", t, vt, v] => do
+    let T ← parseTy t; let V ← parseIntTy vt; let v ← v.toInt?
+    let m : Option String := do
+      let x ← Wrap.fromRep T (V, v)
+      let r ← Wrap.toRep x
+      let x2 ← Wrap.fromRep T r
+      pure (showNum x ++ "|" ++ showTV r ++ "|" ++ showNum x2)
+    some { model := m.getD "ILL(not modelled)", spec := c04wOracle (c04wPure T && T.depth > 0) V v res, branch := "rep" }
+  | _ => none
+
+end Cnl.Drv
